@@ -124,6 +124,12 @@ pub fn run_schedule_relimit(values: &[Val], ch: &Choices, b: Bounds, max_len: us
     #[allow(unused_macros)]
     macro_rules! state_check {
         ($where:expr) => {{
+            // looking at the sink through the mutable accessor (without touching it) is not an
+            // event of the protocol
+            {
+                let k: &mut Sink = w.writer_mut();
+                let _ = k.out.len();
+            }
             #[cfg(have_io_hook)]
             {
                 let (tag, off, buflen, _) = w.verif_state();
